@@ -4,7 +4,7 @@
    proved are the per-step reactions; that they compose over traces is checked by the correspondence stream, and the
    wall-clock spacing of the timers (the real run loop) is outside the model. *)
 From Coq Require Import ZArith List Bool.
-From QF Require Import Base.Bytes Session.Types Session.Model Session.Spec Session.LocalProofs.
+From QF Require Import Base.Bytes Session.Types Session.Model Session.Spec Session.LocalProofs Session.FrameProofs Session.TraceProofs.
 Import ListNotations.
 Open Scope Z_scope.
 
@@ -65,3 +65,11 @@ Theorem c20_cancel_keeps_recovery : forall s m n stash ce re,
   let r := process_reject s m (RTooHigh n (s_tgt s)) in
   fst r = s /\ snd r = SResend (Some (stash_insert n m stash)) ce re.
 Proof. exact pending_recovery_undisturbed. Qed.
+
+(* TRACE LEVEL.  For every configuration and every event list, the heartbeat-timer clause (2002: exactly one Heartbeat
+   without TestReqID when nothing is queued and no test request is pending; nothing while one is pending) and the
+   peer-timer clause (2003: a TestRequest is sent and the state becomes pending) of c20_check never fail on the model's
+   trace.  Uses the reachable-state invariant `Boundary` (connected <-> both channels open), proved for all traces. *)
+Theorem c20_timer_clauses_hold_on_every_trace : forall c es,
+  free_of [2002; 2003] (c20_check c (combine es (map obs_of (run_trace es (init_sess c))))) = true.
+Proof. exact c20_timers_never_fail. Qed.
